@@ -67,6 +67,8 @@ JSvc(r) ==
      \cup (IF r.panic = 0 THEN {} ELSE {"C15.NoPanic"})
      \cup (IF r.panic = 1 \/ r.guard = 1 THEN {} ELSE {"C15.GuardIntact"})
      \cup (IF r.panic = 1 \/ (r.ff = r.gb /\ r.rnd = r.gb) THEN {} ELSE {"C15.Deterministic"})
+     \* packing into a longer slice writes the same frame (the header's total length is the frame's, not the buffer's)
+     \cup (IF r.panic = 1 \/ r.big = r.gb THEN {} ELSE {"C15.HeaderLen"})
      \cup (IF r.panic = 1 \/ r.size = Len(ref) THEN {} ELSE {"C15.SizeExact"})
      \cup (IF r.panic = 1 \/ total = Len(r.gb) THEN {} ELSE {"C15.HeaderLen"})
      \* (a device name that is not representable in ISO 8859-1 has no prescribed encoding: the
@@ -176,15 +178,61 @@ JReg(r) ==
     [] r.op = "conc" -> IF r.mism = 0 THEN {} ELSE {"C19.Independent"}
     [] OTHER -> {}
 
+\* ---- C16 (and the receiver clause of C01): real sockets over loopback -----------------------------
+Surf(sent) == LET wf == SelectSeq(sent, LAMBDA f : f.wf = 1) IN [i \in 1..Len(wf) |-> wf[i].surf]
+CountOf(s, x) == Cardinality({i \in 1..Len(s) : s[i] = x})
+JSock(r) ==
+  CASE r.op = "recv" ->
+         \* every well-formed frame surfaces once, in arrival order; malformed ones are dropped and harm nobody
+         (IF r.got = Surf(r.sent) THEN {}
+          ELSE {IF \E i \in 1..Len(r.sent) : r.sent[i].wf = 0 THEN "C01.ReceiverSurvives" ELSE "C16.InOrderOnce"})
+         \cup (IF r.closed = 1 /\ r.gone = 1 THEN {} ELSE {"C16.ClosedAfter"})
+    [] r.op = "send" ->
+         LET hexes == [i \in 1..Len(r.sent) |-> r.sent[i].hex]
+         IN IF r.contig = 1 /\ Len(r.peer) = Len(hexes) /\ (\A i \in 1..Len(hexes) : CountOf(r.peer, hexes[i]) = CountOf(hexes, hexes[i]))
+            THEN {} ELSE {"C16.SendAtomic"}
+    [] r.op = "hpai" ->
+         LET nat == <<IF r.mode = "tcp" THEN 2 ELSE 1, 0, 0, 0, 0, 0>>
+             want == IF r.sendlocal = 1 /\ r.mode = "udp" /\ Len(r.local) = 6 THEN <<1, r.local[2], r.local[3], r.local[4], r.local[5], r.local[6]>> ELSE nat
+         IN IF r.ctl = want /\ r.tun = want THEN {} ELSE {"C16.HpaiAdvertised"}
+    [] OTHER -> {}
+
+\* ---- C20: describe / discover over loopback ------------------------------------------------------
+\* r.script[i] = [d (us after the request / the call), k]; r.found = indices returned
+MaxI(a, b) == IF a > b THEN a ELSE b
+JLookup(r) ==
+  LET want == IF r.op = "describe" THEN "descr" ELSE "search"
+      n == Len(r.script)
+      slackIn == MaxI(8000, r.timeout \div 3)                  \* responses this long before the deadline must be in
+      setup == IF r.op = "describe" THEN 0 ELSE 3000           \* discover: the group is joined a moment after the call
+      sure == {i \in 1..n : r.script[i].k = want /\ r.script[i].d >= setup /\ r.script[i].d <= r.timeout - slackIn}
+      maybe == {i \in 1..n : r.script[i].k = want /\ r.script[i].d < r.timeout + r.slack}
+      matchIdx == {i \in 1..n : r.script[i].k = want}
+      first == IF matchIdx = {} THEN 0 ELSE CHOOSE i \in matchIdx : \A j \in matchIdx : i <= j
+      inOrder == \A a, b \in 1..Len(r.found) : a < b => r.found[a] < r.found[b]
+      descOk == \/ (r.found = << >> /\ sure = {})
+                \/ (Len(r.found) = 1 /\ r.found[1] = first /\ first \in maybe)
+      discOk == /\ inOrder /\ (\A a \in 1..Len(r.found) : r.found[a] \in maybe)
+                /\ (\A i \in sure : \E a \in 1..Len(r.found) : r.found[a] = i)
+  IN (IF r.err = 0 /\ (IF r.op = "describe" THEN descOk ELSE discOk) THEN {} ELSE {IF r.op = "describe" THEN "C20.FirstMatch" ELSE "C20.AllMatches"})
+     \cup (IF r.elapsed <= r.timeout + r.slack + setup /\ (r.op = "describe" \/ r.elapsed >= r.timeout) THEN {} ELSE {"C20.ReturnBound"})
+     \cup (IF r.reqs = 1 THEN {} ELSE {"C20.OneRequest"})
+     \cup (IF r.hpaiok = 1 THEN {} ELSE {"C20.DescribeHpai"})
+     \cup (IF r.released = 1 THEN {} ELSE {"C20.SocketReleased"})
+
 Judge(pr, r) ==
   CASE r.k = "ldata" -> JLData(r)
     [] r.k = "helper" -> JHelper(r)
     [] r.k = "addr" -> JAddr(r)
     [] r.k = "svc" -> JSvc(r)
+    [] r.k = "stab" -> IF r.panic = 0 /\ (r.ok1 = 0 \/ (r.ok2 = 1 /\ r.v2 = r.v1)) THEN {} ELSE {"C02.Stable"}
     [] r.k = "dec" -> JDec(r)
     [] r.k = "group" -> JGroup(r)
     [] r.k = "dpt" -> JDpt(pr, r)
     [] r.k = "reg" -> JReg(r)
+    [] r.k = "sock" -> JSock(r)
+    [] r.k = "lookup" -> JLookup(r)
+    [] r.k = "crash" -> {"C01.NoPanic", "C16.InOrderOnce", "C20.ReturnBound"}
     [] OTHER -> {}
 
 VARIABLE l
